@@ -10,21 +10,26 @@ import (
 
 // Counter counts calls and fails the FailAt-th one (1-based; 0 = never).
 type Counter struct {
-	N      int64
-	FailAt int64
-	Hit    int64
+	N       int64
+	FailAt  int64
+	FailAt2 int64 // a second failing call (fault pairs)
+	Hit     int64
 }
 
 func (c *Counter) Tick() bool {
 	n := atomic.AddInt64(&c.N, 1)
-	if c.FailAt != 0 && n == c.FailAt {
+	if (c.FailAt != 0 && n == c.FailAt) || (c.FailAt2 != 0 && n == c.FailAt2) {
 		atomic.AddInt64(&c.Hit, 1)
 		return true
 	}
 	return false
 }
 
-func (c *Counter) Reset() { atomic.StoreInt64(&c.N, 0); atomic.StoreInt64(&c.Hit, 0); c.FailAt = 0 }
+func (c *Counter) Reset() {
+	atomic.StoreInt64(&c.N, 0)
+	atomic.StoreInt64(&c.Hit, 0)
+	c.FailAt, c.FailAt2 = 0, 0
+}
 
 // CountingMarshal wraps a marshaler.
 func CountingMarshal(c *Counter, inner func(interface{}) ([]byte, error)) func(interface{}) ([]byte, error) {
